@@ -564,6 +564,15 @@ def check_history(chk, ctx, base, scheds, tag, ref=None, use_model=True):
             ml = emodel.run(r["sp"], r["tp"])
             ca, cm = enginelib.canon_pair(r["out"], ml)
             ctx["model_runs"] += 1
+            if ca != cm:
+                # which of several changed inputs an InputRebuilt reason names is outside the property (the kind is compared; that the named
+                # input really changed is checked by oracle_build); dependency ORDER inside a rule likewise
+                na, nm_ = [norm_line(x) for x in ca], [norm_line(x) for x in cm]
+                if na == nm_:
+                    ctx["named_input_diffs"] = ctx.get("named_input_diffs", 0) + 1
+                    if "named_input_example" not in ctx:
+                        ctx["named_input_example"] = dict(scenario=lines, schedule=sname, first_difference=first_diff(ca, cm))
+                    ca, cm = na, nm_
         if ca != cm:
             dfi = first_diff(ca, cm)
             ctx["model_disagreements"].append(dict(scenario=lines, schedule=sname, first_difference=dfi))
@@ -929,6 +938,10 @@ def run_in(chk, drv, model, emodel, root):
                         task_sequences_through_extracted_automaton=ctx["proto_checked"], builds_replayed_on_handshake_model=ctx["hs_checked"],
                         spec_model_runs=ctx["model_runs"], spec_model_disagreements=len(ctx["model_disagreements"]),
                         stress_builds=nstress, hunt_builds=hunt_builds, tsan_builds=tsan_builds, directed_and_rescan_histories=len(corpus), prior_value_request_histories=len(pcorpus), seconds=dict(corpus=round(t_corpus, 1), histories=round(t_gen, 1), small=round(t_small, 1), stress=round(t_stress, 1), hunt=t_hunt)))
+    if ctx.get("named_input_diffs"):
+        chk.notes["spec_model_named_input"] = ("on %d of %d runs the specification engine names a different (also changed) input in an InputRebuilt reason than the implementation; "
+                                               "not a C06 matter (kind compared, named input checked to have really changed), reported for the owner of Engine/Spec.v: %s"
+                                               % (ctx["named_input_diffs"], ctx["model_runs"], json.dumps(ctx["named_input_example"])[:1500]))
     chk.notes["partial"] = ("PARTIAL - data races are sampled under ThreadSanitizer (thorough tier), not proved; the handshake logic (any number of completer "
                             "threads, any interleaving) and the protocol automaton are proved; schedule independence of values is sampled on the implementation "
                             "and tied to the specification engine by the differential")
